@@ -7,16 +7,26 @@
 (*                                                                         *)
 (*   message T { optional int32 i = 1;  optional T sub = 2;                *)
 (*               repeated int32 r = 3;  repeated T rm = 4;                 *)
-(*               map<string,int32> mp = 5; }                               *)
+(*               map<string,int32> mp = 5;  map<string,T> mm = 6; }        *)
 (*                                                                         *)
 (* and on views of their repeated / map / message fields.  The state is a  *)
 (* store of message, list and map contents plus the handles.               *)
+(*                                                                         *)
+(* A message can be reached through a field (h.sub), an element            *)
+(* (h.rm[0]), a map entry (h.mm["k"]) and through the SNAPSHOT routes that *)
+(* copy the entries of a container into a new Starlark value first:        *)
+(* dict(h.mm), d.update(h.mm), keyword expansion of h.mm in a call, and    *)
+(* list(h.rm).  A snapshot copies the container, not the messages: the     *)
+(* message handle obtained from it denotes the same message object and     *)
+(* belongs to the same group as h.                                         *)
 (*                                                                         *)
 (* Sharing of UNFROZEN content follows what lib/proto documents:           *)
 (*   - "m.sub = other" / list elements / append: "alias it directly";      *)
 (*   - "Message(m) -- return a shallow copy of an existing message";       *)
 (*   - "Assigning to a repeated field must make a copy" of the elements    *)
 (*     into the field's list; a map field is replaced by a new map;        *)
+(*   - a map field whose values are messages is replaced likewise; the     *)
+(*     messages given as values are aliased;                               *)
 (*   - reading an unset message / repeated / map field yields an immutable *)
 (*     default that is not part of the message.                            *)
 (*                                                                         *)
@@ -42,10 +52,12 @@ CONSTANTS MaxRoots,   \* message variables (constructed or copied)
           Flags,      \* FALSE: ideal (content) freezing; TRUE: wrapper-group flags
           Rich        \* TRUE: also the element-aliasing operations on repeated message fields
 
-VARIABLES M,          \* message objects: Seq of [i, sub, r, rm, mp]; 0 = field not set, else value / object id
-          L,          \* list objects: Seq of Seq (ints, or message ids for repeated T)
+VARIABLES M,          \* message objects: Seq of [i, sub, r, rm, mp, mm]; 0 = field not set, else value / object id
+          L,          \* list objects: Seq of Seq (ints, or message ids for repeated T); also the containers of the
+                      \* map<string,T> field mm: a one-element Seq holding the message under key "k"
           P,          \* map objects: Seq of [a, b] (value of keys "a", "b"; 0 = absent)
-          H,          \* handles: Seq of [k, o, rt]  k in {"msg","li","lm","map"}, o = object, rt = root handle it derives from
+          H,          \* handles: Seq of [k, o, rt, via]  k in {"msg","li","lm","map"}, o = object, rt = root handle it derives
+                      \* from, via = "" or the snapshot route the handle was obtained through
           FM, FL, FP, \* ideal: sets of frozen message / list / map objects
           cells,      \* Flags model: root handles whose group flag is set
           snap,       \* ghost: handle -> content it had when it was frozen
@@ -54,7 +66,7 @@ VARIABLES M,          \* message objects: Seq of [i, sub, r, rm, mp]; 0 = field 
 core == <<M, L, P, H, FM, FL, FP, cells, snap>>
 vars == <<M, L, P, H, FM, FL, FP, cells, snap, hist>>
 
-EmptyMsg == [i |-> 0, sub |-> 0, r |-> 0, rm |-> 0, mp |-> 0]
+EmptyMsg == [i |-> 0, sub |-> 0, r |-> 0, rm |-> 0, mp |-> 0, mm |-> 0]
 Bump(x)  == IF x = 1 THEN 2 ELSE 1        \* a value different from the current one
 SeqToSet(s) == {s[j] : j \in 1..Len(s)}
 
@@ -64,11 +76,12 @@ SeqToSet(s) == {s[j] : j \in 1..Len(s)}
 (***************************************************************************)
 Kids(Mx, Lx, o) == (IF Mx[o].sub # 0 THEN {Mx[o].sub} ELSE {})
                    \cup (IF Mx[o].rm # 0 THEN SeqToSet(Lx[Mx[o].rm]) ELSE {})
+                   \cup (IF Mx[o].mm # 0 THEN SeqToSet(Lx[Mx[o].mm]) ELSE {})
 RECURSIVE ReachIn(_, _, _)
 ReachIn(Mx, Lx, S) == LET N == S \cup UNION {Kids(Mx, Lx, o) : o \in S}
                       IN IF N = S THEN S ELSE ReachIn(Mx, Lx, N)
 Reach(S) == ReachIn(M, L, S)
-ListsOf(S) == ({M[o].r : o \in S} \cup {M[o].rm : o \in S}) \ {0}
+ListsOf(S) == ({M[o].r : o \in S} \cup {M[o].rm : o \in S} \cup {M[o].mm : o \in S}) \ {0}
 MapsOf(S)  == {M[o].mp : o \in S} \ {0}
 
 \* a message value is a tree: no message may contain itself
@@ -80,7 +93,8 @@ Tree(o) == [i   |-> M[o].i,
             sub |-> IF M[o].sub = 0 THEN <<>> ELSE <<Tree(M[o].sub)>>,
             r   |-> IF M[o].r = 0 THEN <<>> ELSE L[M[o].r],
             rm  |-> IF M[o].rm = 0 THEN <<>> ELSE [j \in 1..Len(L[M[o].rm]) |-> Tree(L[M[o].rm][j])],
-            mp  |-> IF M[o].mp = 0 THEN [a |-> 0, b |-> 0] ELSE P[M[o].mp]]
+            mp  |-> IF M[o].mp = 0 THEN [a |-> 0, b |-> 0] ELSE P[M[o].mp],
+            mm  |-> IF M[o].mm = 0 THEN <<>> ELSE <<Tree(L[M[o].mm][1])>>]
 
 Content(h) == CASE H[h].k = "msg" -> Tree(H[h].o)
                 [] H[h].k = "li"  -> L[H[h].o]
@@ -123,20 +137,21 @@ SetFld(o, f, v) ==
     [] f = "r"   -> [M EXCEPT ![o].r = v]
     [] f = "rm"  -> [M EXCEPT ![o].rm = v]
     [] f = "mp"  -> [M EXCEPT ![o].mp = v]
+    [] f = "mm"  -> [M EXCEPT ![o].mm = v]
 Fld(o, f) == CASE f = "i" -> M[o].i [] f = "sub" -> M[o].sub [] f = "r" -> M[o].r
-               [] f = "rm" -> M[o].rm [] f = "mp" -> M[o].mp
+               [] f = "rm" -> M[o].rm [] f = "mp" -> M[o].mp [] f = "mm" -> M[o].mm
 
 \* hN = T()
 Construct ==
   /\ Cardinality(Roots) < MaxRoots
   /\ Step("new", 0, 0, 0, TRUE, Append(M, EmptyMsg), L, P,
-          Append(H, [k |-> "msg", o |-> Len(M) + 1, rt |-> Len(H) + 1]))
+          Append(H, [k |-> "msg", o |-> Len(M) + 1, rt |-> Len(H) + 1, via |-> ""]))
 
 \* hN = T(h): shallow copy (scalars copied, sub-message / list / map contents shared)
 Copy(h) ==
   /\ Cardinality(Roots) < MaxRoots
   /\ Step("copy", h, 0, 0, TRUE, Append(M, M[H[h].o]), L, P,
-          Append(H, [k |-> "msg", o |-> Len(M) + 1, rt |-> Len(H) + 1]))
+          Append(H, [k |-> "msg", o |-> Len(M) + 1, rt |-> Len(H) + 1, via |-> ""]))
 
 \* h.i = k
 SetI(h) == LET o == H[h].o k == Bump(M[o].i) IN
@@ -201,11 +216,20 @@ SetMpFrom(h, g) == LET o == H[h].o p == M[H[g].o].mp IN
   /\ p # 0
   /\ Step("setmpfrom", h, g, 0, ~FrzM(h, o), SetFld(o, "mp", Len(P) + 1), L, Append(P, P[p]), H)
 
+\* h.mm = {"k": T(i = k)}   (the map field is replaced by a new map holding a new message)
+SetMmNew(h) == LET o == H[h].o k == IF M[o].mm = 0 THEN 1 ELSE Bump(M[L[M[o].mm][1]].i) IN
+  Step("setmmnew", h, 0, k, ~FrzM(h, o),
+       Append(SetFld(o, "mm", Len(L) + 1), [EmptyMsg EXCEPT !.i = k]), Append(L, <<Len(M) + 1>>), P, H)
+\* h.mm = {"k": g}   (a new map; the message of g is aliased as its value)
+SetMm(h, g) == LET o == H[h].o IN
+  /\ o \notin Reach({H[g].o})
+  /\ Step("setmm", h, g, 0, ~FrzM(h, o), SetFld(o, "mm", Len(L) + 1), Append(L, <<H[g].o>>), P, H)
+
 \* h.f = None: the field is unset (at most once per history).  A list, map or sub-message that a view or
 \* another message still holds is detached from h, not emptied.
 Clr(h, f) == LET o == H[h].o IN
   /\ Fld(o, f) # 0
-  /\ \A j \in 1..Len(hist) : hist[j][1] \notin {"clr.i", "clr.sub", "clr.r", "clr.rm", "clr.mp"}
+  /\ \A j \in 1..Len(hist) : hist[j][1] \notin {"clr.i", "clr.sub", "clr.r", "clr.rm", "clr.mp", "clr.mm"}
   /\ Step("clr." \o f, h, 0, 0, ~FrzM(h, o), SetFld(o, f, 0), L, P, H)
 
 (***************************************************************************)
@@ -228,6 +252,9 @@ RSet(h) == LET l == M[H[h].o].r k == IF l = 0 THEN 1 ELSE Bump(L[l][1]) IN ListS
 \* h.rm[0].i = k
 Rm0SetI(h) == LET l == M[H[h].o].rm e == IF l = 0 THEN 0 ELSE L[l][1] k == IF l = 0 THEN 1 ELSE Bump(M[e].i) IN
   Step("rm0.seti", h, 0, k, l # 0 /\ ~FrzM(h, e), IF l = 0 THEN M ELSE SetFld(e, "i", k), L, P, H)
+\* h.mm["k"].i = k   (no entry: the lookup fails)
+Mm0SetI(h) == LET l == M[H[h].o].mm e == IF l = 0 THEN 0 ELSE L[l][1] k == IF l = 0 THEN 1 ELSE Bump(M[e].i) IN
+  Step("mm0.seti", h, 0, k, l # 0 /\ ~FrzM(h, e), IF l = 0 THEN M ELSE SetFld(e, "i", k), L, P, H)
 \* h.rm.append(g), h.rm[0] = g   (the message of g is aliased as an element)
 RmApp(h, g) == LET l == M[H[h].o].rm IN
   /\ H[h].o \notin Reach({H[g].o})
@@ -245,9 +272,31 @@ MpSet(h) == LET p == M[H[h].o].mp k == IF p = 0 THEN 1 ELSE Bump(P[p].b) IN
 View(h, f) == LET o == H[h].o
                   t == CASE f = "sub" -> M[o].sub [] f = "r" -> M[o].r [] f = "rm" -> M[o].rm
                          [] f = "mp" -> M[o].mp [] f = "rm0" -> IF M[o].rm = 0 THEN 0 ELSE L[M[o].rm][1]
-                  kd == CASE f \in {"sub", "rm0"} -> "msg" [] f = "r" -> "li" [] f = "rm" -> "lm" [] f = "mp" -> "map"
+                         [] f = "mm0" -> IF M[o].mm = 0 THEN 0 ELSE L[M[o].mm][1]
+                  kd == CASE f \in {"sub", "rm0", "mm0"} -> "msg" [] f = "r" -> "li" [] f = "rm" -> "lm" [] f = "mp" -> "map"
   IN /\ t # 0 /\ NumViews < MaxViews
-     /\ Step("view." \o f, h, 0, 0, TRUE, M, L, P, Append(H, [k |-> kd, o |-> t, rt |-> H[h].rt]))
+     /\ Step("view." \o f, h, 0, 0, TRUE, M, L, P, Append(H, [k |-> kd, o |-> t, rt |-> H[h].rt, via |-> ""]))
+
+(***************************************************************************)
+(* Snapshot routes: hN = <the message> taken from a copy of the entries of *)
+(* a container of h.  The copy is a new Starlark dict / list, but the      *)
+(* message in it is the message of h: same object, same group as h, so it  *)
+(* is frozen with h whenever the snapshot was taken.                       *)
+(*   snap.mm0   hN = dict(h.mm)["k"]                                       *)
+(*   vals.mm0   d = {}; d.update(h.mm); hN = d.values()[0]                 *)
+(*   items.mm0  hN = f(h.mm expanded as keyword arguments), f returning    *)
+(*              the first value of its keyword dict                        *)
+(*   snap.rm0   hN = list(h.rm)[0]                                         *)
+(* The route is recorded in the handle (via) although it has no effect on  *)
+(* the content: the states reached through different routes stay distinct, *)
+(* so every continuation (freeze, mutation through hN, ...) is enumerated  *)
+(* behind every route and not only behind the first one found.             *)
+(***************************************************************************)
+SnapRoutes == {"snap.mm0", "vals.mm0", "items.mm0", "snap.rm0"}
+Snap(h, op) == LET o == H[h].o
+                   l == IF op = "snap.rm0" THEN M[o].rm ELSE M[o].mm
+  IN /\ l # 0 /\ NumViews < MaxViews
+     /\ Step(op, h, 0, 0, TRUE, M, L, P, Append(H, [k |-> "msg", o |-> L[l][1], rt |-> H[h].rt, via |-> op]))
 
 \* mutations through a list / map view v
 VApp(v)  == LET l == H[v].o k == Bump(L[l][Len(L[l])]) IN ListAppend("v.append", v, 0, l, k, k)
@@ -279,7 +328,7 @@ Freeze(h) ==
      /\ UNCHANGED <<M, L, P, H>>
 
 Init == /\ M = <<EmptyMsg>> /\ L = <<>> /\ P = <<>>
-        /\ H = <<[k |-> "msg", o |-> 1, rt |-> 1]>>
+        /\ H = <<[k |-> "msg", o |-> 1, rt |-> 1, via |-> ""]>>
         /\ FM = {} /\ FL = {} /\ FP = {} /\ cells = {}
         /\ snap = <<>>
         /\ hist = <<>>
@@ -287,13 +336,14 @@ Init == /\ M = <<EmptyMsg>> /\ L = <<>> /\ P = <<>>
 Next ==
   \/ Construct
   \/ \E h \in MsgHandles :
-       \/ Copy(h) \/ SetI(h) \/ SetSubNew(h) \/ SetR(h) \/ SetRmNew(h) \/ SetMp(h)
-       \/ SubSetI(h) \/ RApp(h) \/ RSet(h) \/ Rm0SetI(h) \/ MpSet(h)
-       \/ \E f \in {"sub", "r", "rm", "mp", "rm0"} : View(h, f)
-       \/ \E f \in {"i", "sub", "r", "rm", "mp"} : Clr(h, f)
+       \/ Copy(h) \/ SetI(h) \/ SetSubNew(h) \/ SetR(h) \/ SetRmNew(h) \/ SetMp(h) \/ SetMmNew(h)
+       \/ SubSetI(h) \/ RApp(h) \/ RSet(h) \/ Rm0SetI(h) \/ MpSet(h) \/ Mm0SetI(h)
+       \/ \E f \in {"sub", "r", "rm", "mp", "rm0", "mm0"} : View(h, f)
+       \/ \E op \in SnapRoutes : Snap(h, op)
+       \/ \E f \in {"i", "sub", "r", "rm", "mp", "mm"} : Clr(h, f)
        \/ \E g \in MsgHandles :
             \/ SetRFrom(h, g) \/ SetMpFrom(h, g)
-            \/ (g # h /\ (SetSub(h, g) \/ SetSubFrom(h, g) \/ SetRm(h, g)))
+            \/ (g # h /\ (SetSub(h, g) \/ SetSubFrom(h, g) \/ SetRm(h, g) \/ SetMm(h, g)))
             \/ SetRmFrom(h, g)
             \/ (Rich /\ g # h /\ (RmApp(h, g) \/ RmSet(h, g)))
   \/ \E h \in Roots : Freeze(h)
@@ -310,8 +360,9 @@ TypeOK ==
   /\ \A o \in 1..Len(M) : /\ M[o].i \in 0..2
                           /\ M[o].sub \in 0..Len(M)
                           /\ M[o].r \in 0..Len(L) /\ M[o].rm \in 0..Len(L) /\ M[o].mp \in 0..Len(P)
+                          /\ M[o].mm \in 0..Len(L) /\ (M[o].mm # 0 => Len(L[M[o].mm]) = 1)
   /\ \A l \in 1..Len(L) : Len(L[l]) \in 1..MaxElems
-  /\ \A h \in Handles : H[H[h].rt].rt = H[h].rt
+  /\ \A h \in Handles : H[H[h].rt].rt = H[h].rt /\ H[h].via \in SnapRoutes \cup {""}
   /\ FM \subseteq 1..Len(M) /\ FL \subseteq 1..Len(L) /\ FP \subseteq 1..Len(P)
 
 \* The property: the content seen through a frozen handle never changes.
@@ -321,5 +372,5 @@ FrozenStable == \A h \in DOMAIN snap : Content(h) = snap[h]
 FrozenClosed == ~Flags =>
   /\ Reach(FM) = FM
   /\ ListsOf(FM) \subseteq FL /\ MapsOf(FM) \subseteq FP
-  /\ \A l \in FL : \A o \in 1..Len(M) : (M[o].rm = l) => SeqToSet(L[l]) \subseteq FM
+  /\ \A l \in FL : \A o \in 1..Len(M) : (M[o].rm = l \/ M[o].mm = l) => SeqToSet(L[l]) \subseteq FM
 =============================================================================
